@@ -137,7 +137,12 @@ func (gw *parallelGateway) NextAction(ctx context.Context, flow Flow) chan IActi
 	// buffered: the gateway answers exactly once per request and must not
 	// block on a flow that has gone (instance cancelled)
 	response := make(chan IAction, 1)
-	gw.mch <- nextActionMessage{response: response, flow: flow}
+	// the run loop exits when ctx is done: a flow arriving then must not wait
+	// for room in an inbox nobody drains any more
+	select {
+	case gw.mch <- nextActionMessage{response: response, flow: flow}:
+	case <-ctx.Done():
+	}
 	return response
 }
 
